@@ -24,6 +24,7 @@ import EPV.Gen.K2InitTd4
 import EPV.Gen.K2InitTd6
 import EPV.Spec.Burn
 import EPV.Lemmas.C20Rest
+import EPV.Lemmas.Bridge.DetonTactics
 
 set_option linter.all false
 
@@ -34,13 +35,10 @@ namespace EPV.C20
 private theorem k2_coded (p : K2Init.P) :
     K2Init.outcome p = .ok ↔
       K2Coded p.geometry p.R p.D1 p.D2 p.a1 p.a2 p.a4 p.a5 p.td1 p.td2 p.td3 p.td4 p.td5 := by
-  rest_ok_formula
-  simp only [epv_cond, K2Coded, not_le, not_lt]
-  constructor
-  · intro h
-    casesm* _ ∨ _, _ ∧ _ <;> tauto
-  · intro h
-    casesm* _ ∨ _, _ ∧ _ <;> simp_all <;> norm_num
+  -- case analysis along the constructor tree; each leaf against the documented atoms by linear arithmetic
+  -- (independent of the order of the checks and of how `t_d3 + R (1/D1 + 1/D2) - |a|/D2` is written)
+  unfold K2Coded
+  epv_deton_accept_iff
 
 /-- partial: the property asks for `accepts ↔ Documented`; the only gap is the boundary D₁ = D₂ -/
 theorem k2init_accepts_iff_partial (p : K2Init.P) :
